@@ -256,8 +256,8 @@ def calib_cases(draw):
         "dtype": draw(gen.dtypes),
         "aq": draw(st.sampled_from(["qint8", "qfloat8_e4m3fn", "qfloat8_e5m2"])),
         "wq": draw(st.sampled_from(["qint8", "qfloat8_e4m3fn", "qint4"])),
-        "batches": draw(st.lists(st.sampled_from(["zeros", "const", "tiny", "huge", "normal", "single"]), min_size=1, max_size=3)),
-        "model": draw(st.sampled_from(["linear", "mlp", "mlp-inplace", "mlp-inplace", "ln-linear"])),
+        "batches": draw(st.lists(st.sampled_from(["zeros", "const", "tiny", "huge", "normal", "single", "small", "offset"]), min_size=1, max_size=3)),
+        "model": draw(st.sampled_from(["linear", "mlp", "mlp-inplace", "mlp-inplace", "ln-linear", "linear-ln"])),
         # the batches reach the model as float tensors, or already quantized by an upstream stage with ANOTHER 8-bit qtype
         "qin": draw(st.sampled_from([None, None, "other"])),
         "seed": draw(st.integers(0, 2**20)),
@@ -276,6 +276,10 @@ def batch_of(kind, shape, dtype, g):
         v = r * gen.MINNORMAL[dtype] * 4
     elif kind == "huge":
         v = r * gen.FMAX[dtype] * 1e-3
+    elif kind == "small":
+        v = r * 0.01  # ordinary values of small magnitude (comparable to the sqrt(eps) of a normalisation)
+    elif kind == "offset":
+        v = 1.0 + 0.01 * r  # rows confined near a constant
     elif kind == "single":
         v = torch.zeros(shape, dtype=torch.float64)
         v.reshape(-1)[0] = 3.0
@@ -299,6 +303,9 @@ def exec_calib(case):
         # activation functions applied IN PLACE on the (quantized) output of the first layer, as torchvision-style models do
         act = [torch.nn.ReLU(inplace=True), torch.nn.ReLU6(inplace=True), torch.nn.Hardtanh(inplace=True)][case["seed"] % 3]
         model = torch.nn.Sequential(torch.nn.Linear(n, 8, bias=bool(case["seed"] % 2)), act, torch.nn.Linear(8, 4))
+    elif case["model"] == "linear-ln":
+        # a projection without bias feeding a normalisation: the LayerNorm receives a quantized tensor
+        model = torch.nn.Sequential(torch.nn.Linear(n, 8, bias=False), torch.nn.LayerNorm(8))
     else:
         model = torch.nn.Sequential(torch.nn.LayerNorm(n), torch.nn.Linear(n, 6))
     with torch.no_grad():
@@ -356,20 +363,25 @@ def exec_calib(case):
         # calibrated on ONE batch, a fresh model run on that very batch: every module sees the input it was calibrated on, so the
         # range each output scale covers contains the module's own raw (pre-quantization) output -- nothing saturates, the error of
         # every quantized activation obeys the bound of C01 (half a step inside the range)
-        raws, outs, undo, ins = {}, {}, [], {}
+        raws, outs, undo, ins, xins, youts = {}, {}, [], {}, {}, {}
         for name, m in model.named_modules():
             if isinstance(m, QModuleMixin) and m.activation_qtype is not None:
                 def wrap(orig, name=name):
                     def qforward(inp):
                         if isinstance(inp, QBytesTensor):
                             ins[name] = inp  # the input the module computes with (requantized when it came with another qtype)
+                        xins[name] = inp.dequantize().detach().clone() if isinstance(inp, QTensor) else inp.detach().clone()
                         r_ = orig(inp)
                         raws[name] = r_.dequantize().detach().clone() if isinstance(r_, QTensor) else r_.detach().clone()
                         return r_
                     return qforward
                 m.qforward = wrap(m.qforward)
                 undo.append(m)
-                undo.append(m.register_forward_hook(lambda mod, i_, o_, name=name: outs.__setitem__(name, (o_._scale.detach().clone() if isinstance(o_, QBytesTensor) else None))))
+                def seen_output(mod, i_, o_, name=name):
+                    outs[name] = o_._scale.detach().clone() if isinstance(o_, QBytesTensor) else None
+                    youts[name] = o_.detach().clone() if isinstance(o_, QBytesTensor) else o_  # (user code may update it in place afterwards)
+
+                undo.append(m.register_forward_hook(seen_output))
         with torch.no_grad():
             y = cut(lambda: model(feed(batches[0])))
         for h in undo:
@@ -390,6 +402,47 @@ def exec_calib(case):
                 out.fail(f"{tag}/calibration-batch-saturates", f"module {name}: on the very batch it was calibrated on ({case['batches'][0]}), its raw output reaches {top:.6g} but the calibrated range is "
                                                                f"output_scale * {G:g} = {so * G:.6g} ({case['aq']}, {case['dtype']}, {case['model']})")
                 break
+        if not out.failures:
+            # ... and every quantized activation is the grid point nearest to what the float module gives on the (de)quantized input
+            # the module received -- an INDEPENDENT float64 evaluation with the dequantized weights (C01's bound, widened by the
+            # accumulation error of the module's own arithmetic)
+            from checks.c12_calib import raw64
+
+            Gq = O.grid(aq)
+            mods_ = dict(model.named_modules())
+            for name, yq in youts.items():
+                if not isinstance(yq, QBytesTensor) or name not in xins or yq._scale.numel() != 1:
+                    continue
+                x_in = xins[name]
+                if name not in ins and not isinstance(mods_[name], torch.nn.LayerNorm):
+                    # (a float input is quantized by the module itself, with its input scale, before the product)
+                    x_in = quantize_activation(x_in, aq, mods_[name].input_scale.detach()).dequantize()
+                # (only where the module's own arithmetic is in the normal range: a product of two scales below the smallest normal
+                # float32 number keeps a bit or two, whatever the dtype of the model -- the tiny-range family of D04)
+                qw_ = getattr(mods_[name], "qweight", None)
+                s_in_ = float(mods_[name].input_scale.detach().to(torch.float64))
+                w_min_ = float(qw_._scale.detach().to(torch.float64).abs().min()) if isinstance(qw_, QTensor) else 1.0
+                if s_in_ * w_min_ < 1.2e-38 * 1024 or float(yq._scale.to(torch.float64)) < gen.MINNORMAL[dtype]:
+                    out.klass.append("subnormal-arithmetic-not-judged")
+                    continue
+                ref, bound = raw64(mods_[name], x_in)
+                s_ = float(yq._scale.to(torch.float64))
+                if not (s_ > 0) or not bool(torch.isfinite(ref).all()) or not bool(torch.isfinite(bound).all()):
+                    continue
+                qq = ref / s_
+                dist, _, _ = O.nearest_dist(qq, Gq)
+                inside = (qq > Gq[0]) & (qq < Gq[-1])
+                # the module's own raw output r' differs from the reference r by at most `bound`; its code is the point nearest to
+                # r'/s, and the distance to the grid is 1-Lipschitz: |code - r/s| <= dist(r/s) + 2 bound/s + the division's rounding
+                tol = 2 * bound / s_ + 2 * (qq.abs() * u + eta)
+                err = (O.codes64(yq) - qq).abs()
+                bad = inside & (err > dist + tol)
+                if bool(bad.any()):
+                    i_ = int(torch.nonzero(bad.reshape(-1))[0])
+                    out.fail(f"{tag}/activation-not-nearest/{type(mods_[name]).__name__}", f"module {name}: {int(bad.sum())}/{bad.numel()} output codes are not the grid points nearest to the float module's output on the "
+                                                                                          f"(de)quantized input, e.g. code {O.codes64(yq).reshape(-1)[i_].item()} for raw/scale {qq.reshape(-1)[i_].item():.6g} "
+                                                                                          f"(batch {case['batches'][0]}, {case['aq']}, {case['dtype']}, {case['model']})")
+                    break
         if qin is not None and not out.failures:
             # ... and a batch handed over quantized with ANOTHER qtype is requantized by the first module without saturating
             first = next(iter(ins), None)
@@ -420,7 +473,25 @@ def _run(strategy, execute):
     return run
 
 
+def run_calibgrid(ctx):
+    """one calibration batch, then inference on it: every model x activation qtype x dtype x batch kind (the single-batch stage of
+    exec_calib judges every module's range and every quantized activation), which random histories reach only now and then"""
+    from vlib.core import enumerate_cases
+
+    cs = []
+    k = 0
+    for model in ["linear", "mlp", "mlp-inplace", "ln-linear", "linear-ln"]:
+        for aq in ["qint8", "qfloat8_e4m3fn", "qfloat8_e5m2"]:
+            for dt in ["fp32", "fp16", "bf16"]:
+                for kind in ["zeros", "const", "tiny", "huge", "normal", "single", "small", "offset"]:
+                    k += 1
+                    cs.append({"dtype": dt, "aq": aq, "wq": ["qint8", "qfloat8_e4m3fn", "qint4"][k % 3], "batches": [kind], "model": model, "qin": "other" if k % 4 == 0 else None,
+                               "seed": ctx.seed * 1000 + k, "inf": [5, 8, 16, 32][k % 4], "no_grad": bool(k % 2)})
+    enumerate_cases(ctx, cs[ctx.shard :: ctx.nshards], exec_calib, exhaustive_name=None)
+
+
 SUBCHECKS = {
+    "calibgrid": {"run": run_calibgrid, "execute": exec_calib},
     "weights": {"run": _run(R.row_tensor_cases(degenerate_bias=True, qtypes=sorted(O.QTALL)), exec_weights), "execute": exec_weights},
     "layers": {"run": _run(layer_cases(), exec_layer), "execute": exec_layer},
     "calib": {"run": _run(calib_cases(), exec_calib), "execute": exec_calib},
